@@ -10,7 +10,8 @@ package rtspc
 //
 //	p := rtspc.TransportParams(resp.Get("Transport"))          "destination" -> "235.0.0.7", "port" -> "16670-16671", flags -> ""
 //	group, rtp, rtcp, err := rtspc.MulticastTarget(value)      destination and port pair of a SETUP answer
-//	u, err := rtspc.JoinMulticast(group, port)                 udp4 socket bound to 0.0.0.0:port with SO_REUSEADDR (several
+//	u, err := rtspc.JoinMulticast(group, port)                 (a *MulticastJoinError when the local socket cannot be had)
+//	                                                          udp4 socket bound to 0.0.0.0:port with SO_REUSEADDR+SO_REUSEPORT (several
 //	                                                          members per host), IP_MULTICAST_ALL off (only the joined
 //	                                                          group is delivered, whatever else uses the port), group joined
 //	                                                          on the default interface, 4 MiB receive buffer
@@ -75,6 +76,22 @@ func MulticastTarget(v string) (group string, rtp, rtcp int, err error) {
 	return group, rtp, rtcp, nil
 }
 
+// MulticastJoinError reports that the local socket for group:port could not be
+// opened or joined: a matter of this host (port taken, no multicast route), not
+// of the server under test.
+type MulticastJoinError struct {
+	Group string
+	Port  int
+	Err   error
+}
+
+func (e *MulticastJoinError) Error() string {
+	return fmt.Sprintf("rtspc: joining %s:%d: %v", e.Group, e.Port, e.Err)
+}
+func (e *MulticastJoinError) Unwrap() error { return e.Err }
+
+const soReusePort = 15 // SO_REUSEPORT, socket(7); not in package syscall on every port of Go
+
 const ipMulticastAll = 49 // IP_MULTICAST_ALL, ip(7); not in package syscall
 
 // JoinMulticast returns a socket that receives the datagrams sent to group:port.
@@ -86,14 +103,21 @@ func JoinMulticast(group string, port int) (*net.UDPConn, error) {
 	var serr error
 	lc := net.ListenConfig{Control: func(network, address string, c syscall.RawConn) error {
 		return c.Control(func(fd uintptr) {
+			// set before bind (Control runs between socket() and bind()): several members, also
+			// of other processes of this user, may share group:port
 			if serr = syscall.SetsockoptInt(int(fd), syscall.SOL_SOCKET, syscall.SO_REUSEADDR, 1); serr == nil {
+				serr = syscall.SetsockoptInt(int(fd), syscall.SOL_SOCKET, soReusePort, 1)
+			}
+			if serr == nil {
 				serr = syscall.SetsockoptInt(int(fd), syscall.IPPROTO_IP, ipMulticastAll, 0)
 			}
 		})
 	}}
 	pc, err := lc.ListenPacket(context.Background(), "udp4", fmt.Sprintf("0.0.0.0:%d", port))
 	if err != nil {
-		return nil, err
+		// typically EADDRINUSE: a socket of another process holds the port without
+		// SO_REUSEADDR (the port is the server's choice, not the client's)
+		return nil, &MulticastJoinError{Group: group, Port: port, Err: err}
 	}
 	u := pc.(*net.UDPConn)
 	if serr == nil {
@@ -110,7 +134,7 @@ func JoinMulticast(group string, port int) (*net.UDPConn, error) {
 	}
 	if serr != nil {
 		u.Close()
-		return nil, fmt.Errorf("rtspc: joining %s:%d: %w", group, port, serr)
+		return nil, &MulticastJoinError{Group: group, Port: port, Err: serr}
 	}
 	u.SetReadBuffer(4 << 20)
 	return u, nil
